@@ -25,6 +25,8 @@ def cause(c):
         return "trailing-segments-ignored"
     if a["enc"] in HPENC:
         return "lenient-base64"
+    if a.get("actual") == "key-disallowed":
+        return "used-alg-from-key-content-not-allowed"
     if a["alg"] == "mismatch":
         return "alg-does-not-fit-key" if c["fam"] != "rsa" else "alg-not-allowed"
     if a["alg"] in ("none", "mac"):
